@@ -63,7 +63,7 @@ func (fr *Frame) calleeContract(cc *ssa.CallCommon) (*FuncContract, string) {
 	if callee != nil {
 		return c.eng.cs.Funcs[callee.String()], callee.String()
 	}
-	if fc := c.eng.fnTypeContract(cc.Value.Type()); fc != nil {
+	if fc := c.eng.fnValueContract(cc.Value); fc != nil {
 		return fc, fc.Key
 	}
 	return nil, "dynamic call of " + cc.Value.Name()
@@ -143,7 +143,7 @@ func (fr *Frame) call(v ssa.Value, cc *ssa.CallCommon, st *State, ins ssa.Instru
 		// dynamic call of a function value
 		fv := fr.term(cc.Value, st)
 		fr.nopanic(st, "nil", pos, not(app("=", fv.S, "0")), "call of nil function")
-		if fc := c.eng.fnTypeContract(cc.Value.Type()); fc != nil {
+		if fc := c.eng.fnValueContract(cc.Value); fc != nil {
 			c.callees[fc.Key] = "function-type contract"
 			fr.applyContract(fc, nil, sig, termArgs(), st, pos, v, fc.Key, false)
 			return
